@@ -132,6 +132,13 @@ Theorem C18_files_removed : forall vm env (dir : list file) (o : oracle),
 Proof. exact process_events_spec. Qed.
 Print Assumptions C18_files_removed.
 
+(* the evaluation-only variant used by the correspondence check (size carried along instead of
+   re-rendered) is the same function *)
+Theorem C18_fast_model_equal : forall vm env (dir : list file) (o : oracle),
+  process_events_fast vm env dir o = process_events vm env dir o.
+Proof. exact process_events_fast_eq. Qed.
+Print Assumptions C18_fast_model_equal.
+
 (* non-vacuity: three events, the middle one too large, first POST answered with a failure.
    Pop order is last-first: round 1 batches e2 (the large event overflows it and is put back),
    is POSTed twice with the same body (fail, ok); round 2 drops the large event without a POST;
